@@ -487,7 +487,7 @@ func Run(r *ev.Run) {
 				for pi, pf := range pfs {
 					ns := append([]int{}, sizes...)
 					// short values (exact comparison) at a rotating subset of entry points
-					if (pi+step)%4 == 0 {
+					if (pi+step+int(r.Seed%4+4))%4 == 0 {
 						ns = append(ns, 1, 5)
 					}
 					for _, n := range ns {
@@ -522,7 +522,7 @@ func Run(r *ev.Run) {
 	runCross := func(state int, set []*artefact, sample bool) {
 		var jobs []crossJob
 		for ai, a := range set {
-			if sample && (ai+state)%3 != 0 {
+			if sample && (ai+state+int(r.Seed%3+3))%3 != 0 {
 				continue
 			}
 			for _, b := range clients {
